@@ -266,8 +266,9 @@ type Env struct {
 	seqHTTP    *HTTPRec
 	Corrupt    *Corruption // next request corruption (sequential HTTP worlds)
 
-	Ops   int
-	Trace []string
+	Ops     int
+	Trace   []string
+	KekBase int // KEK call count right after the last Open
 }
 
 // OpCtx is the context of one client operation in progress.
@@ -351,6 +352,10 @@ func (e *Env) Open() error {
 		return err
 	}
 	e.DB = d
+	e.KekBase = e.KEK.Count()
+	if !e.HTTP {
+		return nil
+	}
 	e.Mux = http.NewServeMux()
 	_, err = server.New(context.Background(), server.Config{
 		DB: d, WhoIs: e.whoIs, Mux: e.Mux,
@@ -731,3 +736,5 @@ func (e *Env) Observe() (string, error) {
 	}
 	return sb.String(), nil
 }
+
+func apiV(v uint32) api.SecretVersion { return api.SecretVersion(v) }
